@@ -1,2 +1,9 @@
 import BnpVerif.Props.C17
+#print axioms C17.layout
+#print axioms C17.layout_newline
+#print axioms C17.fetch_interval
+#print axioms C17.index_rows
+#print axioms C17.fetch_contig
+#print axioms C17.random_access
+#print axioms C17.contig_lengths
 #print axioms C17.contig_lengths_old_unsound
